@@ -63,7 +63,7 @@ def _lines(ctx):
     """traced batch lines: waterlib.TRACE_LINES (extreme weather, ETpot overrides) with their own result folders"""
     nl, endy = (8, 1995) if ctx.thorough else (4, 1982)
     out = []
-    for i, (ln, fmt) in enumerate(waterlib.TRACE_LINES[:nl]):
+    for i, (ln, fmt) in enumerate(waterlib.common_period_lines()[:nl]):
         end = ("1231%d" if fmt == "EN" else "3112%d") % endy
         out.append("%s EndDate=%s resultfolder=R/dayw%d" % (ln, end, i))
     return out
